@@ -66,7 +66,13 @@ type ConcCase struct {
 
 // pathOf: names starting with ^ live in a directory shared by all goroutines
 // (each goroutine only touches its own names there: disjoint resources, common parent)
+//
+// A '#' in a name stands for a file extension nobody has used before in this process (per run and goroutine): caches
+// keyed by extension, content type or name get their first, writing access under concurrency.
+var extNonce int
+
 func pathOf(i int, name string) string {
+	name = strings.ReplaceAll(name, "#", fmt.Sprintf("x%dg%d", extNonce, i))
 	if strings.HasPrefix(name, "^") {
 		return fmt.Sprintf("/shared/g%d-%s", i, name[1:])
 	}
@@ -110,6 +116,7 @@ func errCode(err error) int {
 }
 
 func evalFiles(c ConcCase) (vev.Outcome, error) {
+	extNonce++
 	root, err := os.MkdirTemp("", "c18")
 	if err != nil {
 		return vev.Outcome{}, err
@@ -715,7 +722,7 @@ func TestAReplay(t *testing.T) {
 
 func genSeq(rt *rapid.T, files bool) []Op {
 	n := rapid.IntRange(4, 16).Draw(rt, "nops")
-	names := []string{"a", "b", "d", "d/x", "d/y", "e f", "é", "^s", "^t", "^s", "^u v"}
+	names := []string{"a", "b", "d", "d/x", "d/y", "e f", "é", "^s", "^t", "^s", "^u v", "r.#", "d/s.#", "^w.#", "r.txt"}
 	var l []Op
 	for i := 0; i < n; i++ {
 		op := Op{Kind: rapid.SampledFrom([]string{"create", "create", "create", "mkdir", "remove", "copy", "move", "stat", "readdir", "open"}).Draw(rt, "kind"), Name: rapid.SampledFrom(names).Draw(rt, "name")}
